@@ -14,7 +14,7 @@ import os
 from sim import devices
 from sim.canon import Log, dec_table, enc_table, canon_rows, canon_row, enc
 from sim.catalogue import (f_reducer, f_groupmapper, f_fold, _count)
-from sim.core import outcome, ddmin_lists, draw_config
+from sim.core import outcome, ddmin_lists, draw_config, not_a_harness_bug
 from sim.devices import (SimTable, SimSourceError, SOURCE_ERROR_KINDS,
                          INJECTED_SOURCE_FAILURES)
 from sim.gen import gen_table
@@ -400,7 +400,7 @@ def _run_knobs(e, case, log, sb, probes):
     try:
         want = _default(e, op, tables, rt)
     except Exception as ex:
-        return None, type(ex).__name__
+        return None, type(not_a_harness_bug(ex)).__name__
     log.add('default', want)
     td = os.path.join(sb.path, 'td')
     os.mkdir(td)
@@ -510,7 +510,7 @@ def _run_history_(e, case, log, sb, probes):
     try:
         _default(e, op, tables)
     except Exception as ex:
-        return None, type(ex).__name__
+        return None, type(not_a_harness_bug(ex)).__name__
     kw = dict(case['kw'])
     cache = case['cache']
     if not cache:
